@@ -95,7 +95,7 @@ func build(r fiber.Router, items []Item, o *obs, mode string, cfg fiber.Config, 
 		}
 		switch it.Kind {
 		case "route":
-			r.Add([]string{it.Method}, p, mkH(o, it.ID, it.Next))
+			r.Add(strings.Split(it.Method, "+"), p, mkH(o, it.ID, it.Next)) // "GET+POST": one registration for several methods
 		case "use":
 			r.Use(p, mkH(o, it.ID, it.Next))
 		case "chain":
@@ -153,7 +153,7 @@ func buildFlat(app *fiber.App, prefix string, nested bool, items []Item, o *obs,
 		}
 		switch it.Kind {
 		case "route":
-			app.Add([]string{it.Method}, j(p), mkH(o, it.ID, it.Next))
+			app.Add(strings.Split(it.Method, "+"), j(p), mkH(o, it.ID, it.Next))
 		case "use":
 			app.Use(j(p), mkH(o, it.ID, it.Next))
 		case "chain":
@@ -316,7 +316,7 @@ func (g *gen) items(depth int, full string) []Item {
 		k := rapid.IntRange(0, 11).Draw(t, "kind")
 		switch {
 		case k <= 3 || (depth == 0 && k <= 8):
-			out = append(out, Item{Kind: "route", Method: rapid.SampledFrom([]string{"GET", "POST"}).Draw(t, "m"),
+			out = append(out, Item{Kind: "route", Method: rapid.SampledFrom([]string{"GET", "POST", "GET", "POST", "GET+POST", "POST+GET"}).Draw(t, "m"),
 				Path: rapid.SampledFrom(itemPaths).Draw(t, "p"), ID: g.id(), Next: rapid.Bool().Draw(t, "next")})
 		case k == 4 || (depth == 0 && k <= 10):
 			out = append(out, Item{Kind: "use", Path: rapid.SampledFrom(itemPaths).Draw(t, "p"), ID: g.id(), Next: rapid.IntRange(0, 3).Draw(t, "next") > 0})
